@@ -4,6 +4,8 @@
 //
 //	LN <j>:  level j of the chain is a SYMBOLIC LINK to a directory kept elsewhere (deeper levels live below that
 //	         directory): the search climbs the path it was given, component by component, whatever the components are;
+//	CS <j>:  level j also holds regular files "Spokfile" and "SPOKFILE" (not spokfiles); stop EXT (with LN): the
+//	         directory the linked level points to, named by its own path (physically that level, lexically elsewhere);
 //	REL <i0>: the working directory is level i0 (≤ i) and start is given RELATIVE to it (".", "d", "d/d", …): the climb
 //	         of a relative path ends at "." — judged for termination and for the nearest spokfile between the two.
 //
@@ -121,7 +123,7 @@ func findWork(c string) string {
 	if len(f) < 6 || len(f)%2 != 0 || f[0] != "L" || f[2] != "S" || f[4] != "T" {
 		return "BAD-CASE"
 	}
-	linkAt, relFrom := -1, -1
+	linkAt, relFrom, caseAt := -1, -1, -1
 	for i := 6; i+1 < len(f); i += 2 {
 		v, err := strconv.Atoi(f[i+1])
 		if err != nil || v < 0 {
@@ -132,6 +134,8 @@ func findWork(c string) string {
 			linkAt = v
 		case "REL":
 			relFrom = v
+		case "CS":
+			caseAt = v
 		default:
 			return "BAD-CASE"
 		}
@@ -173,8 +177,25 @@ func findWork(c string) string {
 			return "BAD-SETUP " + sup.Hx(err.Error())
 		}
 	}
+	if caseAt >= 0 {
+		if caseAt >= len(ks) {
+			return "BAD-CASE"
+		}
+		// regular files whose names differ from "spokfile" in case only: they are not spokfiles
+		for _, n := range []string{"Spokfile", "SPOKFILE"} {
+			if err := os.WriteFile(filepath.Join(dirs[caseAt], n), []byte("# not it\n"), 0o644); err != nil {
+				return "BAD-SETUP " + sup.Hx(err.Error())
+			}
+		}
+	}
 	var stop string
 	switch {
+	case f[5] == "EXT":
+		// the directory a linked level points to, named by its own path
+		if linkAt < 0 {
+			return "BAD-CASE"
+		}
+		stop = ext
 	case f[5] == "ROOT":
 		stop = string(filepath.Separator)
 	case strings.HasPrefix(f[5], "L"):
@@ -332,9 +353,15 @@ func genVariants(w *bufio.Writer, n int, kinds []int) {
 				for ln := 0; ln < n; ln++ {
 					fmt.Fprintf(w, "L %s S %d T %s LN %d\n", ks, s, st, ln)
 				}
+				for cs := 0; cs < n; cs++ {
+					fmt.Fprintf(w, "L %s S %d T %s CS %d\n", ks, s, st, cs)
+				}
 				for i0 := 0; i0 <= s; i0++ {
 					fmt.Fprintf(w, "L %s S %d T %s REL %d\n", ks, s, st, i0)
 				}
+			}
+			for ln := 0; ln < n; ln++ {
+				fmt.Fprintf(w, "L %s S %d T EXT LN %d\n", ks, s, ln)
 			}
 		}
 		p := n - 1
